@@ -70,9 +70,12 @@ def step (toks : List String) : String :=
       | none => "bad-op"
     | _, _, _, _ => "bad-op"
   | "drq" :: mn :: mx :: im :: iM :: vals =>
-    let optI (s : String) : Option (Option W) :=
-      if s == "nil" then some none else (parseInt s).map (fun v => some (i2f (BitVec.ofInt 64 v)))
-    match optI mn, optI mx, optB im, optB iM with
+    -- an open end of a date range is the end of the int64 nanosecond range (not ±Inf, whose bit
+    -- patterns are dates inside it): what `parseEndpoints` passes on since the fix recorded in KNOWN_FINDINGS
+    let optI (dflt : Int) (s : String) : Option (Option W) :=
+      if s == "nil" then some (some (i2f (BitVec.ofInt 64 dflt)))
+      else (parseInt s).map (fun v => some (i2f (BitVec.ofInt 64 v)))
+    match optI (-9223372036854775808) mn, optI 9223372036854775807 mx, optB im, optB iM with
     | some mn, some mx, some im, some iM =>
       match vals.mapM parseInt with
       | some vs => String.ofList (vs.map (fun v => if rangeMatches mn mx im iM (i2f (BitVec.ofInt 64 v)) then '1' else '0'))
